@@ -54,10 +54,19 @@ def run(ctx):
     if probe["after"] != "N":
         ctx.candidate(dict(src="lock", what="lock still held after the calls returned"), "a method returned while holding the cache lock: " + json.dumps(probe), dict(kind="lockprobe", probe=probe))
     ctx.log("measured lock table:", table)
+    nested = {op: [x.split(":")[0] for x in probe.get("nested", {}).get(op, [])] for op in EXPECT_HOOKED}
+    for k in table:
+        if k.endswith("!selfdeadlock"):
+            ctx.candidate(dict(src="lock", what="selfdeadlock", op=k.split("!")[0]),
+                          "%s never returns even when called alone (re-acquires its own lock exclusively?): %s" % (k.split("!")[0], json.dumps(probe)),
+                          dict(kind="lockprobe", probe=probe))
+    if any(nested.values()):
+        ctx.log("measured nested lock acquisitions:", {k: v for k, v in nested.items() if v})
     env = {"LM_" + op: table[op] for op in EXPECT_HOOKED}
+    env.update({"NEST_" + op: (nested[op][0] if nested[op] and nested[op][0] in EXPECT_HOOKED else "none") for op in EXPECT_HOOKED})
     predicted = []
     for cfg in ["MC_LRUConc", "MC_LRUConc2"]:
-        res = ctx.tlc("LRUConc", cfg, workers=1 if True else 8, env=env, expect_ok=False, timeout=900)
+        res = ctx.tlc("LRUConc", cfg, workers=4, env=env, expect_ok=False, timeout=900)
         if res.ok:
             continue
         races = res.vecs.get("RACE", [])
@@ -69,18 +78,29 @@ def run(ctx):
             raise MachineryError("LRUConc model check failed without a race/deadlock verdict:\n" + res.raw[-3000:])
     reproduced = False
     for cfg, pr in predicted[:1]:
-        pair = "%s,%s" % (pr["a"], pr["b"])
-        ctx.log("model predicts a race between", pair, "- running the pair under the race detector")
-        rr, err, races = run_race(ctx, vhr, ["lru-hammer", "-pair", pair, "-ms", "3000", "-procs", "4"], timeout=300)
-        bad = races or (rr is not None and ("HAMMER-FAIL" in rr.stdout or rr.returncode not in (0, 66)))
-        if bad:
-            reproduced = True
-            fns, lines = race_summary(races[0]) if races and races[0] != "timeout" else ([], [])
-            ctx.candidate(dict(src="lockmodel", pair=sorted([pr["a"], pr["b"]]), table=table),
-                          "lock table %s lets %s run concurrently (TLC NoRace counterexample in %s); reproduced under -race: %s %s" % (
-                              table, pair, cfg, fns, lines), dict(kind="pair", pair=pair, table=table))
+        if pr["a"] == "deadlock":
+            # the model deadlocks: a method re-acquires the lock it holds and a writer arrives in between.
+            # Targeted runs: each nesting method against each exclusively locking method, with a watchdog.
+            pairs = ["%s,%s" % (op, w) for op in EXPECT_HOOKED if nested[op] for w in EXPECT_HOOKED if table[w] == "W" and w != op]
+            pairs = pairs or ["Store,Dump"]
         else:
-            raise MachineryError("TLC predicts a race for %s with lock table %s but the targeted run did not reproduce it" % (pair, table))
+            pairs = ["%s,%s" % (pr["a"], pr["b"])]
+        for pair in pairs:
+            ctx.log("model predicts", "a deadlock" if pr["a"] == "deadlock" else "a race", "- targeted run of", pair, "under the race detector")
+            rr, err, races = run_race(ctx, vhr, ["lru-hammer", "-pair", pair, "-ms", "3000", "-procs", "4", "-caps", "3,8,1"], timeout=300)
+            bad = races or (rr is not None and ("HAMMER-FAIL" in rr.stdout or rr.returncode not in (0, 66)))
+            if bad:
+                reproduced = True
+                fns, lines = race_summary(races[0]) if races and races[0] != "timeout" else ([], [])
+                what = (rr.stdout.strip()[:400] if rr is not None and "HAMMER-FAIL" in rr.stdout else "")
+                ctx.candidate(dict(src="lockmodel", pair=sorted(pair.split(",")), table=table, nested={k: v for k, v in nested.items() if v}),
+                              "lock protocol measured on the code (modes %s, nested acquisitions %s) violates the LRUConc model (%s in %s); reproduced by a targeted run of %s: %s %s %s" % (
+                                  table, {k: v for k, v in nested.items() if v}, "deadlock" if pr["a"] == "deadlock" else "NoRace counterexample", cfg, pair, fns, lines, what),
+                              dict(kind="pair", pair=pair, table=table))
+                break
+        if not reproduced:
+            raise MachineryError("TLC predicts %s with lock table %s / nesting %s but the targeted runs %s did not reproduce it" % (
+                "a deadlock" if pr["a"] == "deadlock" else "a race for %s,%s" % (pr["a"], pr["b"]), table, nested, pairs))
 
     # ---- 3. plain stress under the race detector --------------------------------------------------
     rr, err, races = run_race(ctx, vhr, ["lru-hammer", "-ms", "800" if quick else "4000", "-procs", "8", "-caps", "0,1,3,8"], timeout=600)
@@ -90,6 +110,8 @@ def run(ctx):
     else:
         m = re.search(r"HAMMER-OK ops=(\d+)", rr.stdout)
         hammer_ops = int(m.group(1)) if m else 0
+        if "HAMMER-STALL" in rr.stdout:
+            raise MachineryError("stress run stalled without a goroutine parked in the cache lock: " + rr.stdout[-300:])
         if "HAMMER-FAIL" in rr.stdout:
             ctx.candidate(dict(src="hammer", what="invariant"), "stress run: " + rr.stdout.strip()[:300], dict(kind="hammer"))
         if "panic:" in err or "fatal error" in err:
@@ -109,6 +131,8 @@ def run(ctx):
                                           "-keys", "3", "-shards", str(shards), "-out", pre], timeout=1200)
     if rr is None:
         raise MachineryError("conc-record timed out")
+    if "aborted after history" in err:
+        ctx.log("conc-record:", [l for l in err.splitlines() if "aborted after history" in l][0][:300])
     m = re.search(r"histories=(\d+) overlapping=(\d+)", err)
     if not m:
         raise MachineryError("conc-record failed: " + err[-1500:])
@@ -128,6 +152,8 @@ def run(ctx):
         if sample is None:
             sample = evs[:12]
         for e in evs:
+            if e["e"] == "panic" and e["res"].startswith("stalled"):
+                raise MachineryError("recording stalled without a goroutine parked in the cache lock (overloaded machine?): " + e["res"])
             if e["e"] == "panic":
                 ctx.candidate(dict(src="history", what="panic"), "concurrent history crashed or deadlocked: " + e["res"][:300], dict(kind="history-panic", event=e))
         if rej is not None:
